@@ -368,6 +368,7 @@ func c04Ask(r *R) {
 		}
 	}
 	// no registration survives completion
+	vsimrt.Fence()
 	inReg, inAgents := actor.VsimFutureRegistrations(sysI)
 	if len(inReg) > 0 || len(inAgents) > 0 {
 		r.Fail("C04/registration-leak", "after every future completed the system still holds registrations: registry=%v futureAgents=%v", inReg, inAgents)
